@@ -807,8 +807,37 @@ def r199(facts, res):
                     'the carets are indented too little' % (b.name_of(r) or '_%d' % r, ', '.join(sorted(b.name_of(x) or '_%d' % x for x in printed))))
 
 
+def r1910(facts, res):
+    """Columns count the characters of the line as they are.  R19.3 decides the character loop; the end-of-text branch of
+    byte_to_line_num_and_col_num counts the last line with `chars().count()`.  Neither may look at an edited copy of the line:
+    no trimming, stripping, replacing or filtering of the text on the way to a count (a trailing CR at the end of the text IS a
+    character of the last line - seeded change C19-eot-column-trims-cr)."""
+    R = 'R19.10'
+    bs = [b for b in facts.lib_bodies(['cfgrammar']) if b.name == 'byte_to_line_num_and_col_num' and b.kind != 'closure']
+    if len(bs) != 1:
+        return res.lost(R, 'NewlineCache::byte_to_line_num_and_col_num not found (%d)' % len(bs))
+    b = bs[0]
+    bodies = [b] + list(facts.closures_of(b))
+    EDITS = ('strip_suffix', 'strip_prefix', 'replace', 'replacen', 'filter', 'skip_while', 'take_while', 'split', 'rsplit', 'split_terminator', 'lines', 'split_whitespace', 'rfind', 'rsplit_once', 'split_once')
+    bad, ncount = [], 0
+    for x in bodies:
+        for bb, t in x.calls():
+            nm = cname(t) or ''
+            pth = callee_of(t).get('path') or ''
+            if nm in ('count', 'char_indices', 'chars'):
+                ncount += 1
+            if (nm.startswith('trim') or nm in EDITS) and ('core::str' in pth or 'core::iter' in pth or 'alloc::str' in pth):
+                bad.append('line %s: the text of the line goes through `%s` before it is counted' % (t.get('line'), nm))
+    key = 'line-counted-as-it-is'
+    if bad:
+        res.bad(R, key, loc_of(b), '; '.join(sorted(set(bad))[:2]) + ': the column is short by the characters taken away', {'function': b.path})
+    else:
+        res.ok(R, key, loc_of(b), 'no trimming, stripping, replacing or filtering of the text before a count (%d character iterations)' % ncount)
+
+
 def run(facts, res):
     r199(facts, res)
+    r1910(facts, res)
     r198(facts, res)
     r197(facts, res)
     r196(facts, res)
